@@ -1860,7 +1860,11 @@ impl Parser {
             }
             TokenKind::Return => {
                 self.expect_token(TokenTag::Return);
-                let expr = if self.current_token().tag() == TokenTag::Newline {
+                // a bare `return` ends where the statement ends: at a newline, a `;` or the block's `}`
+                let expr = if matches!(
+                    self.current_token().tag(),
+                    TokenTag::Newline | TokenTag::Semicolon | TokenTag::CloseBrace
+                ) {
                     None
                 } else {
                     Some(self.parse_expr()?)
